@@ -80,6 +80,30 @@ def run(ctx):
                           bad_msg=f"move_index({a[1][:60]}, {a[2][:90]}) is not bounded by the set's length (a target equal to len panics)")
     ctx.floor("move_index sites on paths", nmove, 4)
 
+    ctx.rule("C13.placement", "insert_and_move_rule moves the rule iff it is new (IndexSet::replace_full returned no previous value) or an anchor was given: a "
+                              "replaced, unpositioned rule keeps its place, whatever that place is")
+    f, paths = allp["insert_and_move_rule"]
+    okp = [p for p in paths if p.kind == "ret" and not U.is_err(p.ret)]
+    ctx.floor("insert_and_move_rule success paths", len(okp), 4)
+    seen_cases = {}
+    for p in okp:
+        moved = any(e[0].rsplit("::", 1)[-1] == "move_index" for e in p.effects)
+        tv = U.true_variants(p)
+        replaced = tv.get("IndexSet::replace_full(set, rule).1")
+        after, before = tv.get("after"), tv.get("before")
+        want = None if replaced is None or after is None or before is None else (replaced == "None" or after == "Some" or before == "Some")
+        key = f"C13.placement:replaced={replaced},after={after},before={before}"
+        good = want is not None and moved == want
+        if key in seen_cases and seen_cases[key] == good:
+            continue
+        seen_cases[key] = good
+        ctx.check(good, "C13.placement", key + ("" if good else f":moved={moved}"), w.where(f),
+                  bad_msg=(f"the rule is {'moved' if moved else 'left in place'} although it is {'new' if replaced == 'None' else 'a replacement'} with "
+                           f"after={after}, before={before}" if want is not None else
+                           "whether the rule is moved does not depend on the value replace_full returned (new vs replaced) and on the anchors alone: "
+                           "e.g. replacing the last rule of a kind without anchors would move it to the top"))
+    ctx.floor("placement cases", len(seen_cases), 8)
+
     ctx.rule("C13.guards", "Ruleset::insert refuses exactly: rule id starting with '.', containing '/' or '\\\\', `after`/`before` anchor starting with '.'; "
                            "remove refuses server-default rules and unknown ids")
     def val_for(dot, slash, bslash, adot, bdot):
